@@ -859,7 +859,7 @@ type Tagged interface {
 		F int "json:\\"naïve\\" x:\\"tab\\there\\""
 		G string `raw:"back\\\\slash"`
 	}) error
-	Local(f func() struct{ ключ int })
+	Local(f func() struct{ Ключ int })
 }
 """
 flagsets("unicode", "adv/unicode", ["Café"], modes=("", "mocks"))
